@@ -81,6 +81,29 @@ FIRST_MISSED = {
     "C11l": "missed first: conversions were only replayed with all nutrients counted; results must not depend on the flags",
     "C13l": "missed first: the documented value of the in-country waste levels (a column of the country's row) was not in `Doc`",
     "C14k": "closed after reading the summary: the overriding run type now carries every kind of numeric override",
+    # wave 7
+    "C01m": "a slip in the result extraction, not in the LP: caught by C04's `FeedBiofuelReportIsAllocation`, added after this change",
+    "C01n": "missed first: the ceiling of the feed round was read back from the code; `CeilingIsWhatHerdsEat` (C05) ties it to the herds",
+    "C02n": "closed after reading the summary: 48-month nuclear-winter runs for USA and DNK added to the corpus",
+    "C03n": "missed first: no run with seaweed alone, demand that never stops and a country well above the threshold; BRA `nw_seaweed` added",
+    "C05m": "a herd-model slip (a skipped feeding step leaves last month's fed count): caught by C07 once a month with nothing on offer followed months of plenty",
+    "C07m": "closed after reading the summary: the livestock-unit factor was read back from the herd object; it now comes from the region tables, SWT added",
+    "C07n": "entered through the integrated path only (`CalculateFeedAndMeat`): caught by C05 `EatenWithinOffered`",
+    "C08m": "closed after reading the summary: fish was never switched off in the inputs",
+    "C08n": "closed after reading the summary: no demand schedule lasted the whole horizon",
+    "C09h": "missed until the recipes of one horizon were run in one process with the delays varying fastest",
+    "C09n": "an option-level slip (the country's ratios zeroed below 1e-3): caught by C13 once `Doc` held the country nuclear-winter ratios (`row1p:`)",
+    "C10m": "closed after reading the summary: anchors on the conversions the result extraction does by hand",
+    "C10n": "closed after reading the summary: populations that are not whole numbers",
+    "C11m": "closed after reading the summary: predicates with operands of mixed shapes, operands compared afterwards",
+    "C11n": "closed after reading the summary: operands that tie in one nutrient and differ in the others",
+    "C13m": "closed after reading the summary: `DispatchReachesNamedSetter`",
+    "C14n": "closed after reading the summary: the overriding run is a nuclear-winter run with another seasonality and stock regime",
+    "C15n": "closed after reading the summary: one aggregate with nothing stubbed, results returned and every table saved",
+    "C16m": "closed after reading the summary: AUS added to the quick countries (the thorough tier had it)",
+    "C18l": "missed first: the re-timing helper was simply not called; `MeatGiven` judges the series the feed round is really given",
+    "C18m": "missed first: the threshold of `FillSum` was read back from the constants; it is now the configured one, ARG `nw_T50` added",
+    "C18n": "missed first: no bump input where the crops left lie between one request and both",
     "C18c": "caught from wave 1; a later encoding change turned its `inf` into a machinery failure for a while: a non-finite observation is now a violation",
 }
 
